@@ -554,6 +554,14 @@ mut('c10-rollback-early', 'C10', 'C10.ORDER.rollback_transaction.releases', txn,
         // rollback
         self.mods.clear();''', 'rollback of an empty log leaves the transaction open (seed C10-r2-b)', also=['C15', 'C12'])
 mut('c11-prev-epoch0', 'C11', 'C11.BIND.previous_skipped_only_if_new', tn, '''        let previous = if is_new {''', '''        let previous = if is_new || target_epoch == 0 {''', 'previous version skipped for a further reason (seed C11-r2-a)')
+mut('c05-gen-swap-dirs', 'C05', 'C05.GEN.children', azks, '''        for (i, dir) in [Direction::Left, Direction::Right].iter().enumerate() {
+            match lcp_node''', '''        for (i, dir) in [Direction::Right, Direction::Left].iter().enumerate() {
+            match lcp_node''', 'children of the anchor emitted in the wrong order (honest proofs for two-child anchors stop verifying only when the hash is order-sensitive)')
+mut('c05-gen-anchor-label', 'C05', 'C05.GEN.label', azks, '''        Ok(NonMembershipProof {
+            label,
+            longest_prefix,''', '''        Ok(NonMembershipProof {
+            label: longest_prefix,
+            longest_prefix,''', 'proof states the anchor label instead of the queried label')
 
 out = [m for m in M if not m.get('disabled')]
 json.dump({'mutants': out}, open(os.path.join(os.path.dirname(os.path.abspath(__file__)), 'mutants.json'), 'w'), indent=1)
